@@ -30,6 +30,7 @@ LINES = {
     'J': '    ; jc',
     'B': '',
     'G': '* ignored',
+    'W': '  ',
 }
 
 
@@ -203,7 +204,7 @@ def postings_list_grab(f, i, owner, acceptable):
     return False
 
 
-def make_layout(first, n_lines, k_calls, alphabet='DTPMQCIJBG', fixed_fn=None, twin=False):
+def make_layout(first, n_lines, k_calls, alphabet='DTPMQCIJBGW', fixed_fn=None, twin=False):
     KINDS = list(alphabet)
     nk = len(KINDS)
 
@@ -303,12 +304,12 @@ def _reg(name_fn, tiers, timeout, family, bounds, twin=False, cost=None):
 
 Q, T = ('quick', 'thorough'), ('thorough',)
 for _first in ('D', 'T', 'C', 'B', 'G'):
-    _reg(make_layout(_first, 4, 0), {'C14': Q}, 1200, 'layout', 'all layouts of 4 lines starting with %r over 10 line kinds (both final-newline variants): attribution rules, idempotence, parse-vs-later' % _first, cost=300)
-    _reg(make_layout(_first, 4, 1, alphabet='TPMCIB', fixed_fn=True), {'C14': Q}, 1200, 'layout/calls',
-         'all layouts of 4 lines starting with %r over 6 line kinds x 1 claim/unclaim call (6 models x 7 call kinds)' % _first, cost=500)
-    _reg(make_layout(_first, 5, 0, alphabet='DTPMQCIB'), {'C14': T}, 3300, 'layout', 'all layouts of 5 lines starting with %r over 8 line kinds' % _first)
-    _reg(make_layout(_first, 6, 0, alphabet='TPMCIB'), {'C14': T}, 3300, 'layout', 'all layouts of 6 lines starting with %r over 6 line kinds' % _first)
-    _reg(make_layout(_first, 3, 2, alphabet='TPMCIB', fixed_fn=True), {'C14': T}, 3300, 'layout/calls', 'all layouts of 3 lines starting with %r over 6 line kinds x 2 claim calls' % _first)
+    _reg(make_layout(_first, 4, 0), {'C14': Q}, 1200, 'layout', 'all layouts of 4 lines starting with %r over 11 line kinds (both final-newline variants): attribution rules, idempotence, parse-vs-later' % _first, cost=300)
+    _reg(make_layout(_first, 4, 1, alphabet='TPMCIBW', fixed_fn=True), {'C14': Q}, 1200, 'layout/calls',
+         'all layouts of 4 lines starting with %r over 7 line kinds x 1 claim/unclaim call (6 models x 7 call kinds)' % _first, cost=500)
+    _reg(make_layout(_first, 5, 0, alphabet='DTPMQCIBW'), {'C14': T}, 3300, 'layout', 'all layouts of 5 lines starting with %r over 9 line kinds' % _first)
+    _reg(make_layout(_first, 6, 0, alphabet='TPMCIBW'), {'C14': T}, 3300, 'layout', 'all layouts of 6 lines starting with %r over 7 line kinds' % _first)
+    _reg(make_layout(_first, 3, 2, alphabet='TPMCIBW', fixed_fn=True), {'C14': T}, 3300, 'layout/calls', 'all layouts of 3 lines starting with %r over 7 line kinds x 2 claim calls' % _first)
 _reg(make_layout('D', 4, 0, twin=True), {'C14': Q}, 120, 'layout', 'vacuity twin', twin=True, cost=1)
 
 FILES = ['autobean_refactor/models/internal/surrounding_comments.py', 'autobean_refactor/models/internal/interleaving_comments.py',
